@@ -17,7 +17,7 @@ EDGES = [-np.inf, 30.0, 50.0, 70.0, np.inf]
 N_CLUSTERS = 2
 
 
-def document(scaling="standardscaler", months=range(1, 13), tz="US/Pacific", seed=0, solar=False, annotated=False, extra=None):
+def document(scaling="standardscaler", months=range(1, 13), tz="US/Pacific", seed=0, solar=False, annotated=False, extra=None, edge_bins=True):
     """stored hourly model; temporal clusters known for `months` x 7 weekdays (weekday -> 0, weekend -> 1)"""
     rng = np.random.default_rng(seed)
     nb = len(EDGES) - 1
@@ -26,9 +26,11 @@ def document(scaling="standardscaler", months=range(1, 13), tz="US/Pacific", see
     ts = ["temperature"] + (["ghi"] if solar else []) + ([extra] if extra else [])  # extra: a supplemental time-series column
     # 24 hourly values per time-series feature: temperature per bin, temperature per cluster, 2 edge bins x (pos, neg)
     # exponential terms (+ ghi for solar models); then the daily dummies
-    nf = 24 * (nb + N_CLUSTERS + 4 + (1 if solar else 0) + (1 if extra else 0)) + len(cat)
+    nf = 24 * (nb + N_CLUSTERS + (4 if edge_bins else 0) + (1 if solar else 0) + (1 if extra else 0)) + len(cat)
     cls = hs.HourlySolarSettings if solar else hs.HourlyNonSolarSettings
     kw = dict(supplemental_time_series_columns=[extra]) if extra else {}
+    if not edge_bins:  # a legal profile: no exponential edge-bin terms
+        kw["temperature_bin"] = dict(include_edge_bins=False, edge_bin_rate=None, edge_bin_percent=None)
     st = json.loads(cls(scaling_method=scaling, **kw).model_dump_json())
     fs = {"temperature": [55.0, 18.0]}
     if solar:
@@ -40,7 +42,7 @@ def document(scaling="standardscaler", months=range(1, 13), tz="US/Pacific", see
         info["warnings"] = [dict(qualified_name="eemeter.w", description="w", data={})]
         info["disqualification"] = [dict(qualified_name="eemeter.x", description="d", data={"a": 1.0})]
     return {"settings": st, "temporal_clusters": clusters, "temperature_bin_edges": list(EDGES),
-            "temperature_edge_bin_coefficients": {"0": {"t_a": 0.5, "t_b": 1.2, "k": 0.8, "a": 0.4}, str(nb - 1): {"t_a": 0.5, "t_b": -1.1, "k": 0.9, "a": 0.5}},
+            "temperature_edge_bin_coefficients": ({"0": {"t_a": 0.5, "t_b": 1.2, "k": 0.8, "a": 0.4}, str(nb - 1): {"t_a": 0.5, "t_b": -1.1, "k": 0.9, "a": 0.5}} if edge_bins else None),
             "ts_features": ts, "categorical_features": cat, "feature_scaler": fs, "catagorical_scaler": None, "y_scaler": [1.5, 0.7],
             "coefficients": rng.normal(0, 0.05, size=(24, nf)).tolist(), "intercept": rng.normal(0, 0.3, size=24).tolist(),
             "baseline_metrics": {"observed": {"mean": 1.5, "std": 0.5}, "predicted": {"mean": 1.5, "std": 0.4}, "residuals": {"mean": 0.0, "std": 0.2},
